@@ -7,4 +7,5 @@ INVARIANT ShapeLaw
 INVARIANT SpellingsAgree
 INVARIANT IsoAgrees
 INVARIANT Malformed
+INVARIANT FormatRoundTrip
 CHECK_DEADLOCK FALSE
